@@ -27,15 +27,15 @@ type VerifC15VP struct {
 
 // VerifC15VprView is an observation of a *vpr (the live one or a freshly loaded one).
 type VerifC15VprView struct {
-	Nil     bool
-	Total   *big.Int
-	Powers  []VerifC15VP            // voters.powers, ascending by id
-	Members []VerifC15VP            // voters.members in tree (iterator) order
-	MembersSize  int                // members.Size()
+	Nil          bool
+	Total        *big.Int
+	Powers       []VerifC15VP // voters.powers, ascending by id
+	Members      []VerifC15VP // voters.members in tree (iterator) order
+	MembersSize  int          // members.Size()
 	MembersPanic string
-	Buckets map[uint8][]VerifC15VP  // store.buckets, list order
-	Changes []VerifC15VP            // pending changes, ascending by id
-	Lowest  *VerifC15VP
+	Buckets      map[uint8][]VerifC15VP // store.buckets, list order
+	Changes      []VerifC15VP           // pending changes, ascending by id
+	Lowest       *VerifC15VP
 }
 
 func verifC15vp(v *votingPower) VerifC15VP {
